@@ -159,8 +159,18 @@ func checkLive(c liveCase) (o pbt.Outcome) {
 	baseText := c.Base.text()
 	nsCfg.BlackSQL = []string{baseText}
 	nsCfg.SupportMultiQuery = c.Multi
-	if err := px.Install(nsCfg); err != nil {
-		o.Skip = "install: " + err.Error()
+	var ierr error
+	if p := pbt.Catch(func() { ierr = px.Install(nsCfg) }); p != "" {
+		detail := fmt.Sprintf("installing a namespace with black_sql %q panicked: %s", baseText, p)
+		if id := classifyPanic(c.Base, p); id != "" {
+			o.Known, o.KnownWhat = id, detail
+			return
+		}
+		o.Violation = detail
+		return
+	}
+	if ierr != nil {
+		o.Skip = "install: " + ierr.Error()
 		return
 	}
 	defer px.Remove(name)
@@ -189,7 +199,18 @@ func checkLive(c liveCase) (o pbt.Outcome) {
 			target = *v.Target
 		}
 		text := apply(target, v.Edits, nil)
-		allowedByFunction := ns.IsSQLAllowed(util.NewRequestContext(), text)
+		var allowedByFunction bool
+		if p := pbt.Catch(func() { allowedByFunction = ns.IsSQLAllowed(util.NewRequestContext(), text) }); p != "" {
+			detail := fmt.Sprintf("variant %d: IsSQLAllowed(%q) panicked: %s", i, text, p)
+			if id := classifyPanic(target, p); id != "" {
+				if firstKnown == "" {
+					firstKnown, firstKnownWhat = id, detail
+				}
+				continue
+			}
+			o.Violation = detail
+			return
+		}
 		kind := "equivalent"
 		if mutant {
 			kind = "mutant"
